@@ -43,7 +43,8 @@ def _conspec(term):
 def encode_marg(term):
     name = term._name
     if name == 'linear_term':
-        return ['L', str(term.feature)] + _lamspec(term)
+        ek = getattr(term, 'edge_knots_', [0.0, 0.0])
+        return ['L', str(term.feature), q(ek[0]), q(ek[1])] + _lamspec(term)
     if name == 'factor_term':
         ek = term.edge_knots_
         return ['F', str(term.feature), str(int(term.n_splines)), '1' if term.coding == 'dummy' else '0', q(ek[0]), q(ek[1])] + _lamspec(term)
